@@ -16,7 +16,8 @@ Oracle (the four clauses of the statement, nothing else):
   * a returned value was produced by a load that completed at most `lifetime` ago;
   * load(k) is never called while an earlier load(k) is still in flight;
   * a lookup raises only (a) the exception of a load of its key that failed no earlier than the instant
-    the lookup was made, or (b) CancelledError when its own task was cancelled.
+    the lookup was made (a load that itself ended by CancelledError or by a non-Exception BaseException counts:
+    the lookups sharing it get that error), or (b) CancelledError when its own task was cancelled.
 """
 import ast
 import asyncio
@@ -27,10 +28,20 @@ from vf import par, vloop, vloopx
 NEEDS_SERVICES = False
 LIFETIME = 10  # seconds of virtual time
 LAGS = (0, 1.0)  # a timer may be observed this much after its due time (time.monotonic_ns read on resumption)
-LOAD_OPTS = ('returns-after-yield', 'returns-after-1s', 'raises-after-yield')
+LOAD_OPTS = ('returns-after-yield', 'returns-after-1s', 'raises-after-yield', 'raises-CancelledError-after-yield', 'raises-BaseException-after-yield')
+OPT_ORDER = (0, 2, 3, 4, 1)  # a configuration with n_opts = n lets the environment pick among the first n of these
 
 K_BEFORE = 'before-lookup'
 K_AFTER = 'after-exit'
+
+
+class BoomBase(BaseException):
+    """A load failure that is a BaseException but not an Exception."""
+
+    def __init__(self, key, load_id):
+        super().__init__(key, load_id)
+        self.key = key
+        self.load_id = load_id
 
 
 class Boom(Exception):
@@ -81,7 +92,7 @@ def make_run_one(num_slots, lookups, n_opts=3, reduce=True):
             return ld['coro']
 
         async def _load(ld):
-            opt = (0, 2, 1)[vloop.choose(n_opts, f'load{ld["id"]}({ld["key"]})')]
+            opt = OPT_ORDER[vloop.choose(n_opts, f'load{ld["id"]}({ld["key"]})')]
             ld['opt'] = opt
             ld['stage'] = 'running'
             try:
@@ -93,12 +104,22 @@ def make_run_one(num_slots, lookups, n_opts=3, reduce=True):
                     ld['stage'] = 'raised'
                     ld['end_t'] = vloop.now()
                     raise Boom(ld['key'], ld['id'])
+                if opt == 3:
+                    # the load itself ends by cancellation (something it awaited was cancelled); nobody cancelled the load task
+                    ld['stage'] = 'self-cancelled'
+                    ld['end_t'] = vloop.now()
+                    raise asyncio.CancelledError()
+                if opt == 4:
+                    ld['stage'] = 'raised-base'
+                    ld['end_t'] = vloop.now()
+                    raise BoomBase(ld['key'], ld['id'])
                 ld['stage'] = 'returned'
                 ld['done_t'] = vloop.now()
                 return (ld['key'], ld['id'])
             except asyncio.CancelledError:
-                ld['stage'] = 'cancelled'
-                ld['end_t'] = vloop.now()
+                if ld['stage'] != 'self-cancelled':
+                    ld['stage'] = 'cancelled'
+                    ld['end_t'] = vloop.now()
                 raise
 
         cache = TimeLimitedMaxSizeCache(load, LIFETIME * 10**9, num_slots, 'verif')
@@ -125,19 +146,23 @@ def make_run_one(num_slots, lookups, n_opts=3, reduce=True):
             try:
                 v = await cache.lookup(k)
             except asyncio.CancelledError:
-                if st['kinds'].get(i) is None:
+                # legitimate if this lookup was cancelled itself, or if "its own load failed": a load of its key ended by
+                # cancellation no earlier than the instant the lookup was made (the lookup shared that load)
+                own_load_cancelled = any(ld['key'] == k and ld['stage'] == 'self-cancelled' and ld['end_t'] >= t_call for ld in loads)
+                if st['kinds'].get(i) is None and not own_load_cancelled:
                     others = {j: kd for j, kd in st['kinds'].items() if j != i}
                     roles = sorted({kd.split(':')[0] for kd in others.values() if ':' in kd})
                     fail('uncancelled-lookup-got-CancelledError:victim-was-' + ('+'.join(roles) if roles else 'nobody'),
-                         f'lookup #{i} ({k!r}) raised CancelledError although nobody cancelled it and no load of its key failed; '
+                         f'lookup #{i} ({k!r}) made at t={t_call - 1000:g} raised CancelledError although nobody cancelled it and no load of its key '
+                         f'ended since then (load end times: {[(ld["key"], ld["stage"], None if ld["end_t"] is None else ld["end_t"] - 1000) for ld in loads]}); '
                          f'cancellations of other lookups={others}; loads={[(ld["key"], ld["stage"]) for ld in loads]}')
-                results[i] = ('CancelledError',)
-            except Boom as e:
+                results[i] = ('CancelledError', 'load-ended-by-cancellation' if own_load_cancelled and st['kinds'].get(i) is None else 'cancelled')
+            except (Boom, BoomBase) as e:
                 # "its own load": a load of its key that failed no earlier than the instant the lookup was made
                 if not (e.key == k and loads[e.load_id]['end_t'] >= t_call):
                     fail('lookup-failed-with-foreign-load-error', f'lookup #{i} ({k!r}) made at t={t_call - 1000:g} raised the failure of '
                          f'load #{e.load_id} ({e.key!r}) that had failed at t={loads[e.load_id]["end_t"] - 1000:g}')
-                results[i] = ('Boom', e.load_id)
+                results[i] = (type(e).__name__, e.load_id)
             except Exception as e:  # noqa: BLE001
                 fail(f'lookup-failed-without-load-failure:{type(e).__name__}',
                      f'lookup #{i} ({k!r}) raised {type(e).__name__}: {e}; cancellations={st["kinds"]} '
@@ -219,7 +244,7 @@ def make_run_one(num_slots, lookups, n_opts=3, reduce=True):
         loop.drain(max_steps=5000)
         blocked = tuple(i for i in range(m) if not tasks[i].done())
         errs = loop.finish()
-        bad = [e for e in errs if 'exception' in e and not isinstance(e['exception'], (Boom, asyncio.CancelledError))]
+        bad = [e for e in errs if 'exception' in e and not isinstance(e['exception'], (Boom, BoomBase, asyncio.CancelledError))]
         if bad:
             raise RuntimeError(f'C26 harness: unexpected loop error {bad[0]}')
         outcome = (tuple(sorted(st['kinds'].items())), tuple(results), tuple((ld['key'], ld['opt'], ld['stage']) for ld in loads),
@@ -251,6 +276,14 @@ def _explore_config(cfg):
             bump('served:' + x, c)
         if any(res and res[0] == 'Boom' for res in results):
             bump('lookup-raised-load-error', c)
+        if any(res and res[0] == 'BoomBase' for res in results):
+            bump('lookup-raised-load-BaseException', c)
+        if sum(1 for res in results if res and res[0] == 'CancelledError' and res[1] == 'load-ended-by-cancellation') >= 2:
+            bump('two-lookups-shared-a-load-that-ended-by-cancellation', c)
+        for j, ld in enumerate(loads):
+            if ld[2] in ('self-cancelled', 'raised-base') and any(l2[0] == ld[0] and l2[2] == 'returned' for l2 in loads[j + 1:]):
+                bump('fresh-load-after-a-load-ended-by-' + ('cancellation' if ld[2] == 'self-cancelled' else 'BaseException'), c)
+                break
         if len({ld[0] for ld in loads if ld[2] == 'returned'}) > cfg[0]:
             bump('more-keys-loaded-than-slots', c)
         keys_loaded = [ld[0] for ld in loads if ld[2] == 'returned']
@@ -275,14 +308,17 @@ def configs(tier):
     out = []
     if tier == 'quick':
         plan = [((1, 2), 2, ('a', 'b'), (0, 10, 11), (0, 10), 1, 3),
+                ((1, 2), 2, ('a',), (0, 10, 11), (), 0, 5),
                 ((1, 2), 3, ('a',), (0, 11), (0,), 1, 2),
+                ((1,), 3, ('a',), (0, 11), (), 0, 3),
                 ((1, 2), 3, ('a', 'b'), (0, 11), (), 0, 2)]
     else:
-        plan = [((1, 2), 2, ('a', 'b'), (0, 1, 10, 11, 12), (0, 1, 10, 11), 2, 3),
+        plan = [((1, 2), 2, ('a', 'b'), (0, 1, 10, 11, 12), (0, 1, 10, 11), 2, 5),
+                ((1, 2), 3, ('a',), (0, 10, 11), (), 0, 5),
                 ((1, 2), 3, ('a', 'b'), (0, 10, 11), (0, 10), 1, 2),
                 ((1, 2), 3, ('a',), (0, 10, 11), (0, 10), 2, 2),
                 ((1, 2), 3, ('a', 'b', 'c'), (0, 11), (), 0, 2),
-                ((1, 2), 4, ('a',), (0, 11), (), 0, 2)]
+                ((1, 2), 4, ('a',), (0, 11), (), 0, 3)]
     seen = set()
     for slotss, m, keys, arrivals, ctimes, maxv, n_opts in plan:
         types = sorted(((k, a, c) for k in keys for a in arrivals for c in (None,) + tuple(ctimes)),
@@ -307,7 +343,7 @@ def configs(tier):
 
 
 SELFCHECK = [
-    (1, (('a', 0, None), ('a', 0, 0)), 3),
+    (1, (('a', 0, None), ('a', 0, 0)), 5),
     (1, (('a', 0, None), ('b', 10, 10)), 3),
     (2, (('a', 0, 0), ('a', 0, None), ('a', 11, None)), 2),
 ]
@@ -362,18 +398,22 @@ def check(tier, seed, procs):
         'executions_by_feature': dict(sorted(cnt.items())),
         'deviation_bound': 'unbounded (every order of external-event/timer completions over a FIFO ready queue and every load behaviour, state-hash pruned)',
         'bounds': (f'lifetime {LIFETIME}s; num_slots 1-2; '
-                   + ('2 lookups (keys a,b; arrivals 0/10/11 s; <=1 cancelled, controller at 0 or 10 s; loads return after a yield | raise | '
-                      'return after 1 s), 3 lookups (arrivals 0/11; loads return after a yield | raise; key a only with <=1 cancelled at 0 | keys a,b, none cancelled)'
+                   + ('2 lookups (keys a,b; arrivals 0/10/11 s; <=1 cancelled, controller at 0 or 10 s; first 3 load behaviours | key a, none cancelled, '
+                      'all 5), 3 lookups (arrivals 0/11; key a only with <=1 cancelled at 0 and the first 2 load behaviours | key a, none cancelled, '
+                      '1 slot, first 3 | keys a,b, none cancelled, first 2)'
                       if tier == 'quick' else
-                      '2 lookups (keys a,b; arrivals 0/1/10/11/12; <=2 cancelled at 0/1/10/11; 3 load behaviours), 3 lookups (keys a,b; '
-                      'arrivals 0/10/11; <=1 cancelled at 0/10; 2 load behaviours | key a; arrivals 0/10/11; <=2 cancelled at 0/10; 2 load '
-                      'behaviours | keys a,b,c; arrivals 0/11; none cancelled; 2 load behaviours), 4 lookups (key a; arrivals 0/11; '
-                      'none cancelled; 2 load behaviours)')
-                   + '; load behaviours: returns after a yield | raises after a yield | returns after 1 s'),
+                      '2 lookups (keys a,b; arrivals 0/1/10/11/12; <=2 cancelled at 0/1/10/11; all 5 load behaviours), 3 lookups (key a; arrivals '
+                      '0/10/11; none cancelled; all 5 | keys a,b; arrivals 0/10/11; <=1 cancelled at 0/10; first 2 | key a; arrivals 0/10/11; <=2 '
+                      'cancelled at 0/10; first 2 | keys a,b,c; arrivals 0/11; none cancelled; first 2), 4 lookups (key a; arrivals 0/11; none '
+                      'cancelled; first 3)')
+                   + '; load behaviours in order: returns after a yield | raises an Exception | raises CancelledError itself | raises a non-Exception '
+                     'BaseException | returns after 1 s'),
     }
     need = ['cancel:' + K_BEFORE, 'cancel:loader:while-waiting', 'cancel:sharer:while-waiting',
             'cancel:loader:after-load-done-before-resume', 'cancel:sharer:after-load-done-before-resume',
-            'served:hit', 'served:shared', 'served:loaded', 'lookup-raised-load-error', 'more-keys-loaded-than-slots', 'key-reloaded']
+            'served:hit', 'served:shared', 'served:loaded', 'lookup-raised-load-error', 'more-keys-loaded-than-slots', 'key-reloaded',
+            'lookup-raised-load-BaseException', 'two-lookups-shared-a-load-that-ended-by-cancellation',
+            'fresh-load-after-a-load-ended-by-cancellation', 'fresh-load-after-a-load-ended-by-BaseException']
     missing = [k for k in need if not cnt.get(k)]
     return {
         'coverage': cov,
